@@ -241,7 +241,7 @@ char* SoPlex_getPrimalRationalString(void* soplex, int dim)
 
    so->getPrimalRational(primal);
 
-   for(int i = 0; i < dim; ++i)
+   for(int i = 0; i < dim && i < primal.dim(); ++i)
    {
       primalstring.append(primal[i].str());
       primalstring.append(" ");
@@ -501,11 +501,11 @@ void SoPlex_changeVarLowerReal(void* soplex, int colidx, double lb)
 void SoPlex_getLowerReal(void* soplex, double* lb, int dim)
 {
    SoPlex* so = (SoPlex*)(soplex);
-   Vector lbvec(dim);
+   Vector lbvec(so->numCols());
 
    so->getLowerReal(lbvec);
 
-   for(int i = 0; i < dim; ++i)
+   for(int i = 0; i < dim && i < lbvec.dim(); ++i)
       lb[i] = lbvec[i];
 }
 
@@ -513,11 +513,11 @@ void SoPlex_getLowerReal(void* soplex, double* lb, int dim)
 void SoPlex_getObjReal(void* soplex, double* obj, int dim)
 {
    SoPlex* so = (SoPlex*)(soplex);
-   Vector objvec(dim);
+   Vector objvec(so->numCols());
 
    so->getObjReal(objvec);
 
-   for(int i = 0; i < dim; ++i)
+   for(int i = 0; i < dim && i < objvec.dim(); ++i)
       obj[i] = objvec[i];
 }
 
@@ -540,11 +540,11 @@ void SoPlex_changeVarUpperReal(void* soplex, int colidx, double ub)
 void SoPlex_getUpperReal(void* soplex, double* ub, int dim)
 {
    SoPlex* so = (SoPlex*)(soplex);
-   Vector ubvec(dim);
+   Vector ubvec(so->numCols());
 
    so->getUpperReal(ubvec);
 
-   for(int i = 0; i < dim; ++i)
+   for(int i = 0; i < dim && i < ubvec.dim(); ++i)
       ub[i] = ubvec[i];
 }
 
